@@ -166,7 +166,7 @@ func c19Bucket(r *vlib.Run, c c19BucketCase) (viol [][2]string, sig string) {
 	js := fmt.Sprintf(`{"retryThrottling":{"maxTokens":%s,"tokenRatio":%s},"methodConfig":[{"name":[{"service":"c19"}]}]}`, c.Max, c.Ratio)
 	cc, rt, err := c19Channel(js)
 	if err != nil {
-		v("harness", "NewClient(%s): %v", js, err)
+		v("valid-throttling-config-rejected", "NewClient with default service config %s failed: %v (maxTokens in (0,1000], tokenRatio > 0: valid per A6)", js, err)
 		return
 	}
 	defer func() { cc.Close(); synctest.Wait() }()
